@@ -464,7 +464,7 @@ def cases(rng, tier):
     for s in seqs:
         m = rng.choice([0, 1, 2, 3])
         out.append({"kind": "seq", "maxsize": m, "ops": number_values(list(s)) + drain(m)})
-    nrand = 3000 if tier == "quick" else 200000
+    nrand = 8000 if tier == "quick" else 200000
     for _ in range(nrand):
         m = rng.choice([0, 1, 2, 3])
         n = rng.randint(1, 8 if tier == "quick" else 12)
